@@ -193,7 +193,13 @@ func attribute(tl gen.Tools, outs []gen.Outcome, probs []gen.Problem) ([]failure
 		}
 		if !found {
 			// nothing fails on its own: the failure needs the combination
-			if len(use) > 0 && len(feats) == 0 && outs[i].Analysis.Twins {
+			twins := len(feats) == 0 && outs[i].Analysis.Twins
+			if base >= 0 && vprobs[base].Kind != "" && gen.Analyze(cands[base].c.Def).Twins {
+				// the fully legalised definition fails as well and still has the twins: they are the cause,
+				// whatever hostile features the original carried besides
+				twins = true
+			}
+			if len(use) > 0 && twins {
 				// a legal definition whose rows pass one by one and that uses two
 				// reply types of one base name
 				names = []string{"same-base-name-types"}
